@@ -12,9 +12,12 @@ def run(ctx):
     ctx.obligations("NGF.Props.C07")
     # fragment stage: status truth against Pipeline.gen from ONE scenario (imports NGF.Props.C07 for the decision core)
     ctx.obligations("NGF.Props.C07Fragment")
+    # TLS layer of the pipeline model (listener validity / conditions vs. genT)
+    ctx.obligations("NGF.Props.C07Tls")
     if ctx.tier == "thorough":
         ctx.leanchecker("NGF.Props.C07")
         ctx.leanchecker("NGF.Props.C07Fragment")
+        ctx.leanchecker("NGF.Props.C07Tls")
 
     n = 180 if ctx.tier == "quick" else 6000
     lines = []
@@ -34,6 +37,8 @@ def run(ctx):
         lines += ctx.harness(["-seed", ctx.seed + 104729, "-hseq", 70, "-hb", 5]) or []
         # fragment stream: scenarios inside the fragment of Model/Pipeline.lean; lines carry the flat scenario
         lines += ctx.harness(["-seed", ctx.seed + 7919, "-frag", 160]) or []
+        # TLS fragment stream: scenarios of Model/PipelineTls.lean (HTTPS listeners, Secrets, port conflicts); "flat" + "secrets"
+        lines += ctx.harness(["-seed", ctx.seed + 15485863, "-tls", 120]) or []
     else:
         # 16 independent streams
         per = n // 16
@@ -47,6 +52,8 @@ def run(ctx):
             procs.append(subprocess.Popen([binp, "-seed", str(ctx.seed * 1000 + 500 + k), "-hseq", "150", "-hb", "6"],
                                           stdout=subprocess.PIPE, text=True))
             procs.append(subprocess.Popen([binp, "-seed", str(ctx.seed * 1000 + 800 + k), "-frag", "400"],
+                                          stdout=subprocess.PIPE, text=True))
+            procs.append(subprocess.Popen([binp, "-seed", str(ctx.seed * 1000 + 900 + k), "-tls", "250"],
                                           stdout=subprocess.PIPE, text=True))
         for p in procs:
             out, _ = p.communicate()
@@ -68,7 +75,7 @@ def run(ctx):
 
     # (a') fragment correspondence: statuses computed by Model/PipelineStatus from the SAME Pipeline.Scenario that
     # Pipeline.gen turns into the configuration (PipelineTie.toFragment of the flat scenario) == real statuses
-    frag_lines = [l for l in lines if '"flat":' in l]
+    frag_lines = [l for l in lines if l.startswith('{"id":"f') and '"flat":' in l]
     frag = {"cases": len(frag_lines), "compared": 0, "in_fragment_wf": 0, "outside": collections.Counter(), "diffs": 0,
             "routes": 0, "routes_with_status": 0, "parents": 0, "listeners": 0, "ignored_gateways": 0,
             "invalid_routes": 0, "parents_resolvedrefs_false": 0, "reasons": collections.Counter(),
@@ -113,6 +120,44 @@ def run(ctx):
                                    "replay_cmd": "harness/cmd/c07 -seed S -frag N -only I (id = f<S>-<I>-<ok|err>)"})
     if ctx.tier == "quick" and getattr(ctx, "harness_ok", False) and frag["compared"] < 100:
         ctx.broken(f"fragment stream: only {frag['compared']} of {frag['cases']} cases were inside the fragment")
+
+    # (a'') TLS layer: listener / Gateway / route statuses computed by Model/PipelineStatusTls from the SAME ScenarioT that
+    # PipelineTls.genT turns into the configuration (PipelineTlsTie.toFragmentT, the view C16 validates against the real files)
+    tls_lines = [l for l in lines if l.startswith('{"id":"t') and '"flat":' in l]
+    tls = {"cases": len(tls_lines), "compared": 0, "outside": collections.Counter(), "diffs": 0, "listeners": 0,
+           "invalid_listeners": 0, "conflicted": 0, "secret_unresolved": 0, "certificateRefs_rejected": 0,
+           "attachedRoutes_on_invalid_listeners": 0, "parent_entries": 0, "reasons": collections.Counter()}
+    touts = ctx.driver("tls", tls_lines) if tls_lines else []
+    if tls_lines and len(touts) != len(tls_lines):
+        ctx.broken(f"tls driver answered {len(touts)} lines for {len(tls_lines)} cases")
+    for l, o in zip(tls_lines, touts):
+        if o.startswith("out "):
+            tls["outside"][o[4:]] += 1
+            continue
+        if o == "skip":
+            continue
+        if not (o.startswith("ok ") or o.startswith("diff ")):
+            ctx.broken(f"tls driver could not process case {json.loads(l)['id']}: {o[:300]}")
+            continue
+        tls["compared"] += 1
+        kv = dict(x.split("=", 1) for x in o.split(" ## ")[0].split()[1:] if "=" in x)
+        for key, field in (("listeners", "listeners"), ("invalid", "invalid_listeners"), ("conflicted", "conflicted"),
+                           ("unresolved", "secret_unresolved"), ("certRejected", "certificateRefs_rejected"),
+                           ("attachedOnInvalid", "attachedRoutes_on_invalid_listeners"), ("parents", "parent_entries")):
+            tls[field] += int(kv.get(key, 0))
+        for item in filter(None, kv.get("reasons", "").split(",")):
+            name, _, cnt = item.rpartition(":")
+            tls["reasons"][name] += int(cnt)
+        if o.startswith("diff "):
+            tls["diffs"] += 1
+            if tls["diffs"] <= 3:
+                d = json.loads(l)
+                ctx.broken(f"PipelineStatusTls (statuses from the ScenarioT of the TLS pipeline model) and the implementation disagree on "
+                           f"case {d['id']}: {o[:600]}",
+                           replay={"case": d["id"], "tls": o, "flat": d["flat"], "st": d["st"], "sum": d["sum"],
+                                   "replay_cmd": "harness/cmd/c07 -seed S -tls N -only I (id = t<S>-<I>-<ok|err>)"})
+    if ctx.tier == "quick" and getattr(ctx, "harness_ok", False) and tls["compared"] < 80:
+        ctx.broken(f"tls stream: only {tls['compared']} of {tls['cases']} cases were inside the fragment")
 
     # (b) the property itself, evaluated by the Lean judge on real configuration + real statuses
     verdicts = ctx.driver("judge", lines) if lines else []
@@ -206,6 +251,18 @@ def run(ctx):
         "panics": panics,
         "generator_tags": dict(tags),
         "handler_batches": dict(hbatches),
+        "tls_stream": {
+            "what": "scenarios of the TLS layer (C16's generator + parentRefs by listener): REAL Gateway / listener conditions as sets of "
+                    "(type, status, observedGeneration), attachedRoutes per listener (also of INVALID listeners) and route parent entries == "
+                    "PipelineStatusTls of PipelineTlsTie.toFragmentT(flat, secrets); ResolvedRefs masked for listeners whose certificateRefs "
+                    "the validator rejects",
+            "cases": tls["cases"], "compared": tls["compared"], "diffs": tls["diffs"], "outside_fragment": dict(tls["outside"]),
+            "listeners_compared": tls["listeners"], "invalid_listeners": tls["invalid_listeners"],
+            "listeners_in_protocol_conflict": tls["conflicted"], "listeners_secret_unresolved": tls["secret_unresolved"],
+            "listeners_certificateRefs_rejected": tls["certificateRefs_rejected"],
+            "attachedRoutes_on_invalid_listeners": tls["attachedRoutes_on_invalid_listeners"],
+            "parent_entries_compared": tls["parent_entries"], "accepted_reason_histogram": dict(tls["reasons"]),
+        },
         "service_policy_ancestors_histogram": dict(usp_hist),
         "handler_cases_compared_with_fresh_handler": fresh_cases,
         "out_of_batch_gateway_writes": dict(svc_cases),
